@@ -170,7 +170,8 @@ func runWE3(c *Ctx, s *Sink) {
 		key := funcName(p, fd)
 		var reg *ast.CallExpr
 		var gostmt *ast.GoStmt
-		var lit *ast.FuncLit
+		var litBody *ast.BlockStmt
+		var litInfo *types.Info
 		for _, st := range fd.Body.List {
 			ast.Inspect(st, func(n ast.Node) bool {
 				switch x := n.(type) {
@@ -184,16 +185,16 @@ func runWE3(c *Ctx, s *Sink) {
 				return true
 			})
 			if g, ok := st.(*ast.GoStmt); ok {
-				if l := localClosure(info, defs, g.Call.Fun); l != nil {
+				if body, binfo := c.goTarget(info, defs, g); body != nil {
 					has := false
-					ast.Inspect(l.Body, func(n ast.Node) bool {
-						if call, ok := n.(*ast.CallExpr); ok && isCallTo(info, call, "pkg/obiiter.UnregisterPipe") {
+					ast.Inspect(body, func(n ast.Node) bool {
+						if call, ok := n.(*ast.CallExpr); ok && isCallTo(binfo, call, "pkg/obiiter.UnregisterPipe") {
 							has = true
 						}
 						return true
 					})
 					if has && gostmt == nil {
-						gostmt, lit = g, l
+						gostmt, litBody, litInfo = g, body, binfo
 					}
 				}
 			}
@@ -211,16 +212,16 @@ func runWE3(c *Ctx, s *Sink) {
 			continue
 		}
 		// in the goroutine: exactly one UnregisterPipe on every exit, after every write/close of the sink
-		g := buildCFG(info, lit.Body)
-		ts := &typestate{g: g, init: 0, info: info,
+		g := buildCFG(litInfo, litBody)
+		ts := &typestate{g: g, init: 0, info: litInfo,
 			events: func(n ast.Node) []tsEvent {
 				var evs []tsEvent
 				visitEval(n, func(m ast.Node) {
 					if call, ok := m.(*ast.CallExpr); ok {
-						if isCallTo(info, call, "pkg/obiiter.UnregisterPipe") {
+						if isCallTo(litInfo, call, "pkg/obiiter.UnregisterPipe") {
 							evs = append(evs, tsEvent{kind: "unreg", node: m})
 						} else if sel, ok := call.Fun.(*ast.SelectorExpr); ok && sinkMethods[sel.Sel.Name] {
-							if tv, ok := info.Types[sel.X]; ok && sinkTypes[sinkTypeName(tv.Type)] {
+							if tv, ok := litInfo.Types[sel.X]; ok && sinkTypes[sinkTypeName(tv.Type)] {
 								evs = append(evs, tsEvent{kind: "io", node: m})
 							}
 						} else if id, ok := call.Fun.(*ast.Ident); ok && strings.HasPrefix(id.Name, "write") {
